@@ -22,6 +22,7 @@ CHECK = dict(
             dict(name="sockets", run="^TestVerifC01Sockets$", quick=400, thorough=12000, shards_quick=2, shards_thorough=6,
                  timeout_quick=300, timeout_thorough=1500),
             dict(name="stream-idle", run="^TestVerifC01StreamIdle$", quick=12, thorough=150, shards_thorough=3),
+            dict(name="pipeline-slow-reader", run="^TestVerifC01PipelineSlowReader$", quick=3, thorough=40, shards_thorough=2),
             dict(name="btd-read-buffer", run="^TestVerifC01BTDReadBuffer$", quick=0, thorough=0),
         ]),
     ],
